@@ -89,6 +89,17 @@ def run(ctx):
                     b = [rnd(rng) for _ in range(D)]
                 s = rnd(rng)
                 reqs.append({"op": "vec", "fn": fn, "D": D, "a": [f2b(v) for v in a], "b": [f2b(v) for v in b], "s": f2b(s)})
+    # signed zeros: accumulations that stay at +-0.0 (the sign of the result shows whether the sum starts from zero() and in which order)
+    for D in range(1, 9):
+        for fn in ["dot", "squared", "add", "sub", "muls", "addassign"]:
+            for za in (0.0, -0.0):
+                for sb in (-1.0, 1.0):
+                    a = [za] * D
+                    b = [sb * rng.uniform(0.5, 3) for _ in range(D)]
+                    reqs.append({"op": "vec", "fn": fn, "D": D, "a": [f2b(v) for v in a], "b": [f2b(v) for v in b], "s": f2b(-0.0)})
+                    reqs.append({"op": "vec", "fn": fn, "D": D, "a": [f2b(v) for v in b], "b": [f2b(v) for v in a], "s": f2b(0.0)})
+            mixed = [rng.choice([0.0, -0.0]) for _ in range(D)]
+            reqs.append({"op": "vec", "fn": fn, "D": D, "a": [f2b(v) for v in mixed], "b": [f2b(rng.choice([0.0, -0.0, -2.0])) for _ in range(D)], "s": f2b(-1.0)})
     nf = 3000 if ctx.quick else 100000
     fns = ["ln", "exp", "cos", "sin", "sqrt", "abs", "inv", "powf", "from_isize", "from_f64", "to_f64", "PI", "zero", "one"]
     for i in range(nf):
@@ -98,6 +109,10 @@ def run(ctx):
             x = rng.uniform(-100, 100)
         if fn == "powf" and rng.random() < 0.7:
             x, y = rng.uniform(0, 10), rng.uniform(-20, 20)
+            if rng.random() < 0.4:      # integral and half-integral exponents (D/2, integer degrees of divergence)
+                y = float(rng.randint(-40, 40)) / 2
+                if rng.random() < 0.3:
+                    x = -x
         c = rng.random()
         n = rng.randint(-10, 10) if c < 0.3 else rng.randint(-2**53, 2**53) if c < 0.6 else rng.randint(-2**63, 2**63 - 1)
         reqs.append({"op": "f64", "fn": fn, "x": f2b(x), "y": f2b(y), "n": n})
